@@ -39,7 +39,10 @@ Names == {Desc(n, <<MType("T", OddStruct), MMethod("M", OddStruct, OddStruct2), 
                             MMethod("M", Struct(<<F("r", Alias("Rec"))>>), Struct(<<F("r", Maybe(Alias("Rec")))>>))>>)}
 (* minimal descriptions: one method, one type, nothing else (no alias, no error): the emitted file's imports *)
 (* and helper code must be right for every type on its own                                              *)
-UsesAlias(t) == t.k = "alias" \/ (t.e # <<>> /\ t.e[1].k = "alias") \/ \E i \in 1..Len(t.fs) : t.fs[i].t # <<>> /\ t.fs[i].t[1].k = "alias"
+RECURSIVE UsesAlias(_)
+UsesAlias(t) == \/ t.k = "alias"
+                \/ (t.e # <<>> /\ UsesAlias(t.e[1]))
+                \/ \E i \in 1..Len(t.fs) : t.fs[i].t # <<>> /\ UsesAlias(t.fs[i].t[1])
 Solo == {Desc("a.b", <<MMethod("M", Struct(<<F("x", TypeSeq[i])>>), Struct(<<>>))>>) : i \in {j \in 1..NT : ~UsesAlias(TypeSeq[j])}}
         \cup {Desc("a.b", <<MMethod("M", Struct(<<>>), Struct(<<F("x", TypeSeq[i])>>))>>) : i \in {j \in 1..NT : ~UsesAlias(TypeSeq[j]) /\ TypeSeq[j].k \in {"object", "map", "array", "maybe"}}}
 Programs == Packed \cup Names \cup Solo
